@@ -491,6 +491,24 @@ pub fn dataurl(b: &[u8]) -> Option<String> {
         let mut bad: Vec<&'static str> = Vec::new();
         if let Ok(s) = std::str::from_utf8(b) {
             let t = |r: Option<&[u8]>| match r { Some(x) => x == b, None => false };
+            // the views of a value do not depend on the route that built it
+            let views = |o: &DataUrlBuf| {
+                let p = o.parts();
+                format!("{:?} {} {} | {:?} {} {} | {:?}", o.media_type(), o.is_base_64_encoded(), o.encoded_data(),
+                    p.media_type, p.base_64, p.data, o.decoded_data().ok())
+            };
+            if let Ok(o0) = &ow {
+                let want = views(o0);
+                let same = |r: Option<DataUrlBuf>| r.map_or(true, |o| views(&o) == want);
+                chk!(bad, true, "views(from_string)", same(DataUrlBuf::from_string(s.to_string()).ok()));
+                chk!(bad, true, "views(TryFrom<String>)", same(DataUrlBuf::try_from(s.to_string()).ok()));
+                chk!(bad, true, "views(FromStr)", same(DataUrlBuf::from_str(s).ok()));
+                chk!(bad, true, "views(parse)", same(s.parse::<DataUrlBuf>().ok()));
+                chk!(bad, true, "views(de_string)", same(DataUrlBuf::deserialize(StringDeserializer::<DeError>::new(s.to_string())).ok()));
+                let js = serde_json::to_string(s).unwrap();
+                chk!(bad, true, "views(json_owned)", same(serde_json::from_str::<DataUrlBuf>(&js).ok()));
+                chk!(bad, true, "views(clone)", same(Some(o0.clone())));
+            }
             chk!(bad, acc, "from_string", t(DataUrlBuf::from_string(s.to_string()).ok().as_ref().map(|v| v.as_str().as_bytes())));
             chk!(bad, acc, "TryFrom<String>", t(DataUrlBuf::try_from(s.to_string()).ok().as_ref().map(|v| v.as_str().as_bytes())));
             chk!(bad, acc, "FromStr", t(DataUrlBuf::from_str(s).ok().as_ref().map(|v| v.as_str().as_bytes())));
@@ -688,6 +706,10 @@ macro_rules! ptr_fam {
             let ui = ap.as_ref().and_then(|x| x.user_info.map(|u| AsRef::<[u8]>::as_ref(u)));
             let host = ap.as_ref().map(|x| AsRef::<[u8]>::as_ref(x.host));
             let port = ap.as_ref().and_then(|x| x.port.map(|u| u.as_bytes()));
+            // the stand-alone authority accessors re-scan the authority
+            let aui = a.and_then(|x| x.user_info().map(|u| AsRef::<[u8]>::as_ref(u)));
+            let ahost = a.map(|x| AsRef::<[u8]>::as_ref(x.host()));
+            let aport = a.and_then(|x| x.port().map(|u| u.as_bytes()));
             let first = p.first().map(|x| AsRef::<[u8]>::as_ref(x));
             let last = p.last().map(|x| AsRef::<[u8]>::as_ref(x));
             let fname = p.file_name().map(|x| AsRef::<[u8]>::as_ref(x));
@@ -716,8 +738,8 @@ macro_rules! ptr_fam {
             let allocs = ALLOCS.load(AO::Relaxed);
             let acc = match acc {
                 Some((s, a, p, q, f)) => format!(
-                    "ascheme={} aauthority={} apath={} aquery={} afragment={}",
-                    oloc(b, s), oloc(b, a), loc(b, p), oloc(b, q), oloc(b, f)),
+                    "ascheme={} aauthority={} apath={} aquery={} afragment={} auserinfo={} ahost={} aport={}",
+                    oloc(b, s), oloc(b, a), loc(b, p), oloc(b, q), oloc(b, f), oloc(b, aui), oloc(b, ahost), oloc(b, aport)),
                 None => String::new(),
             };
             Some(format!(
